@@ -152,7 +152,7 @@ def _transpose_step(step, interval, direction):
     inverval
 
     """
-    op = lambda x, y: abs(x + y) % 7 if direction == "up" else abs(x - y) % 7
+    op = lambda x, y: (x + y) % 7 if direction == "up" else (x - y) % 7
     if interval == "P1":
         pass
     else:
@@ -182,15 +182,16 @@ def _transpose_note_inplace(note, interval):
         else:
             note.octave = note.octave
         prev_alter = note.alter if note.alter is not None else 0
-        prev_pc = MIDI_BASE_CLASS[prev_step.lower()] + prev_alter
+        semitones = INTERVAL_TO_SEMITONES[interval.quality + str(interval.number)]
+        # semitones between the two natural steps, in the direction of the interval
+        prev_pc = MIDI_BASE_CLASS[prev_step.lower()]
         tmp_pc = MIDI_BASE_CLASS[note.step.lower()]
         if interval.direction == "up":
-            diff_sm = tmp_pc - prev_pc if tmp_pc >= prev_pc else tmp_pc + 12 - prev_pc
+            diff_sm = (tmp_pc - prev_pc) % 12
+            note.alter = prev_alter + semitones - diff_sm
         else:
-            diff_sm = prev_pc - tmp_pc if prev_pc >= tmp_pc else prev_pc + 12 - tmp_pc
-        note.alter = (
-            INTERVAL_TO_SEMITONES[interval.quality + str(interval.number)] - diff_sm
-        )
+            diff_sm = (prev_pc - tmp_pc) % 12
+            note.alter = prev_alter - semitones + diff_sm
 
 
 def transpose_note_old(step, alter, interval):
